@@ -573,7 +573,7 @@ pub fn meta(tier: Tier) -> Meta {
     Meta {
         id: "C07",
         level: "exploration",
-        rule: "exhaustive sweeps of finite lattices of the pure arithmetic functions: (1) next_epoch_ext on the cartesian grid lengths{7} x uncles{7} x durations{11} x difficulties{6} x previous-hash-rate{up to 15 points around both clamp boundaries}; (2) every epoch length 1..=1800 x 9 epoch rewards x every block index, plus the halving schedule; (3) all EpochNumberWithFraction pairs with number<=3,length<=5,index<=5; (4) compact/target/difficulty laws on all exponents x 11 mantissas (quick) or ALL 2^32 compact values (thorough); (5) Eaglesong acceptance on 13 targets x 64 nonces; (6) the statistics next_epoch_ext is fed with: the trait's default EpochProvider::get_block_epoch over a store holding two 12-block chains (3 epochs of 4) that fork at every height 1..=11, side-chain block interval {8 s, 10 s, 8.001 s} x uncles per block {0,1} x either chain being the main one, for every block of both chains: tail recognition, duration and uncle count measured against the last block of the previous epoch on the block's own chain. A case is non-trivial when it lies in the dynamic branch with a representable reference value / has a non-zero remainder / verifies; distinct by its parameters.",
+        rule: "exhaustive sweeps of finite lattices of the pure arithmetic functions: (1) next_epoch_ext on the cartesian grid lengths{7} x uncles{7} x durations{11} x difficulties{6} x previous-hash-rate{up to 15 points around both clamp boundaries}; (2) every epoch length 1..=1800 x 9 epoch rewards x every block index, plus the halving schedule; (3) all EpochNumberWithFraction pairs with number<=3,length<=5,index<=5; (4) compact/target/difficulty laws on all exponents x 11 mantissas (quick) or ALL 2^32 compact values (thorough); (5) Eaglesong acceptance on 13 targets x 64 nonces; (6) the statistics next_epoch_ext is fed with: the trait's default EpochProvider::get_block_epoch over a store holding two 12-block chains (3 epochs of 4) that fork at every height 1..=11, side-chain block interval {8 s, 10 s, 8.001 s} x uncles per block {0,1} x either chain being the main one, for every block of both chains: tail recognition, duration and uncle count measured against the last block of the previous epoch on the block's own chain; (7) the epoch record next_epoch_ext returns after an epoch of length g in {1..12, 40, 100, 1000, 1800}, with the duration target for {1..12, 40, 100, 1000, 1800} blocks, permanent and dynamic difficulty, 4 epoch rewards x 3 (uncles, duration) statistics: its block rewards over its own length sum to the scheduled primary issuance with the remainder on the first blocks, and under permanent difficulty its length is the duration target's. A case is non-trivial when it lies in the dynamic branch with a representable reference value / has a non-zero remainder / verifies; distinct by its parameters.",
         assumptions: &["reference = RFC 0020 formulas in exact big-integer rationals (num-bigint-dig); values whose reference result does not fit U256 are skipped", "Eaglesong output recomputed with the same eaglesong crate; only the comparison against the target is independent"],
         bounds: json!({"compact_sweep": if tier.is_thorough() { "2^32" } else { "256x11" }}),
     }
@@ -685,6 +685,64 @@ fn fork_statistics(report: &mut Report) {
     }
 }
 
+/// (7) the epoch record `next_epoch_ext` hands out distributes exactly the scheduled primary issuance
+/// over ITS OWN length, also when the length changes at the boundary: dynamic difficulty (the grid's
+/// statistics move the length) and permanent difficulty with a genesis epoch whose length differs
+/// from the later epochs' (production dev chains: 1000, then 1800).
+fn next_epoch_rewards(report: &mut Report) {
+    let lens: Vec<u64> = (1..=12u64).chain([40, 100, 1000, 1800]).collect();
+    for permanent in [true, false] {
+        for &g in &lens {
+            for &later in &lens {
+                // (in the dynamic mode `later` only sets the duration target: the length follows the statistics)
+                for reward in [1_917_808_21917808u64, 1_917_808_21917811, 7, 1] {
+                    let genesis = crate::world::genesis_block_with_target(difficulty_to_compact(U256::from(1_000_000u64)));
+                    let ge = build_genesis_epoch_ext(Capacity::shannons(reward), genesis.compact_target(), g, later * 8, (1, 40));
+                    let cons = ConsensusBuilder::new(genesis, ge).initial_primary_epoch_reward(Capacity::shannons(reward)).permanent_difficulty_in_dummy(permanent).epoch_duration_target(later * 8).build();
+                    let prev = cons.genesis_epoch_ext().clone();
+                    let header = HeaderBuilder::default().number(g - 1).compact_target(prev.compact_target()).epoch(EpochNumberWithFraction::new(0, g - 1, g)).build();
+                    for (uncles, duration_ms) in [(0u64, later * 8_000), (g / 20, g * 8_000), (0, g * 2_000)] {
+                        let stub = Stub { epoch: prev.clone(), uncles, duration_ms };
+                        let label = json!({"family": "next_epoch_rewards", "permanent_difficulty": permanent, "previous_length": g, "epoch_duration_target_s": later * 8, "epoch_reward": reward, "uncles": uncles, "duration_ms": duration_ms});
+                        report.evaluations += 1;
+                        let next = match std::panic::catch_unwind(|| cons.next_epoch_ext(&header, &stub)) {
+                            Ok(Some(n)) => n.epoch(),
+                            _ => {
+                                report.violation("next-epoch-rewards/none-or-panic", "next_epoch_ext returned None or panicked", label);
+                                continue;
+                            }
+                        };
+                        let l = next.length();
+                        if permanent && l != later {
+                            report.violation("next-epoch-rewards/permanent-length", format!("permanent difficulty: the next epoch has {l} blocks, the duration target gives {later}"), label.clone());
+                        }
+                        if next.number() != 1 || next.start_number() != g {
+                            report.violation("next-epoch-rewards/chaining", format!("next epoch is number {} starting at {}", next.number(), next.start_number()), label.clone());
+                        }
+                        let want_total = cons.primary_epoch_reward(next.number()).as_u64();
+                        let mut sum = 0u128;
+                        let mut prefix_ok = true;
+                        for n in next.start_number()..next.start_number() + l {
+                            let b = next.block_reward(n).map(|c| c.as_u64()).unwrap_or(u64::MAX);
+                            sum += b as u128;
+                            if b != want_total / l + if n - next.start_number() < want_total % l { 1 } else { 0 } {
+                                prefix_ok = false;
+                            }
+                        }
+                        report.transitions += l;
+                        if sum != want_total as u128 || !prefix_ok {
+                            report.violation("next-epoch-rewards/epoch-sum", format!("the epoch after a {g}-block epoch has {l} blocks; their primary rewards sum to {sum}, the schedule gives {want_total} (first-remainder-blocks rule ok = {prefix_ok})"), label.clone());
+                        } else if l != g {
+                            report.nontrivial.insert(fp(&(permanent, g, l, reward)));
+                        }
+                        report.outcomes.insert(fp(&("next-epoch-rewards", permanent, l != g, want_total % l == 0)));
+                    }
+                }
+            }
+        }
+    }
+}
+
 pub fn run(ctx: &Ctx) -> Report {
     let mut report = Report::new();
     // silence panics from catch_unwind probes
@@ -695,6 +753,7 @@ pub fn run(ctx: &Ctx) -> Report {
     compact_laws(ctx, &mut report);
     pow(&mut report);
     fork_statistics(&mut report);
+    next_epoch_rewards(&mut report);
     let _ = std::panic::take_hook();
     report.traces = report.evaluations;
     report.states.insert(1);
